@@ -214,6 +214,14 @@ class C15(Property):
             # TypeError half-way; what it leaves behind of its own aliases is its business, the others' registrations are not
             regs[f"T{i}"] = [{"alias": a, "how": rng.choice(["register", "overload", "overload", "overload-failing"]), "tag": f"{a}@T{i}"} for a in mine]
         case["regs"] = regs
+        if rng.random() < 0.45:
+            # (one thread implements the interface, the other registers on the members directly: two routes to one table)
+            case["iface"] = True
+            for r_ in regs["T0"]:
+                r_["how"] = "implement"
+            for r_ in regs["T1"]:
+                if r_["how"] == "overload-failing" or rng.random() < 0.3:
+                    r_["how"] = rng.choice(["register", "overload", "implement"])
         case["evals"] = [rng.choice(aliases + ["zz"]) for _ in range(rng.randint(2, 5))]
         case["n_datasets"] = rng.choice([1, 1, 2])
 
@@ -439,6 +447,14 @@ class C15(Property):
             return dataset.nocache(body, dispatch="M")
 
         datasets = [mk(f"DS{i}") for i in range(case["n_datasets"])]
+        iface = None
+        if case.get("iface"):
+            # the datasets are the members of an INTERFACE: an implementation class registers all of them at once, through
+            # another route than overload()/register() on a member
+            from labrea import interface
+
+            iface = interface("M")(type("IFACE", (), {f"m{i}": staticmethod(ds) for i, ds in enumerate(datasets)}))
+            datasets = [getattr(iface, f"m{i}") for i in range(len(datasets))]
         reg_iv = {}  # alias -> list of (invoke, return, tag)
         maybe_iv = {}  # the same for registrations that failed half-way (their own alias may or may not be registered)
         final = {}
@@ -450,6 +466,10 @@ class C15(Property):
                     a = sched.stamp(("register-invoke", r["alias"], r["tag"]))
                     entry = [a, float("inf"), r["tag"]]
                     (maybe_iv if r["how"] == "overload-failing" else reg_iv).setdefault(r["alias"], []).append(entry)
+                    if r["how"] == "implement" and iface is not None:
+                        iface.implementation(r["alias"])(type("IMPL_" + r["tag"].replace("@", "_"), (), {f"m{i}": ("impl", r["tag"]) for i in range(len(datasets))}))
+                        entry[1] = sched.stamp(("register-return", r["alias"], r["tag"]))
+                        continue
                     for ds in datasets:
                         if r["how"] == "register":
                             ds.register(r["alias"], Value(("impl", r["tag"])))
